@@ -7,18 +7,28 @@ byte, an odd-length UTF-16 body)."""
 from mcommon import *
 import replay as replay_mod, e2e
 
-WIT = lambda n: '"a".repeat(%d) + "\\u{e9}" + &"b".repeat(16)' % (n - 1)      # byte n is a UTF-8 continuation byte
+def WITS(n):
+    """texts longer than n in which byte n lies inside a 2-, 3- or 4-byte character at every interior offset"""
+    out = []
+    for ch, k in (("\\u{e9}", 2), ("\\u{20ac}", 3), ("\\u{1f600}", 4)):
+        for j in range(1, k):
+            out.append('"a".repeat(%d) + "%s" + &"b".repeat(16)' % (n - j, ch))
+    return "vec![%s]" % ", ".join(out)
 
 TEST_EVENT = '''
 #[cfg(test)]
 mod verif_replay_c13_event {
     #[test]
     fn c13_write_event_long_multibyte_message() {
-        let message: String = %s;
-        super::write_event(crate::logger::LoggerLevel::Info, message, "verif", "verif", "verif_replay");
+        let witnesses: Vec<String> = %s;
+        for message in witnesses {
+            let m = message.clone();
+            let r = std::panic::catch_unwind(move || super::write_event(crate::logger::LoggerLevel::Info, m, "verif", "verif", "verif_replay"));
+            assert!(r.is_ok(), "write_event panicked on a {}-byte message with a multi-byte character across the cut", message.len());
+        }
     }
 }
-''' % WIT(4096)
+''' % WITS(4096)
 
 TEST_STATUS = '''
 #[cfg(test)]
@@ -26,13 +36,17 @@ mod verif_replay_c13_status {
     use super::*;
     #[tokio::test(flavor = "current_thread")]
     async fn c13_get_module_status_long_multibyte_message() {
-        let st = AgentStatusSharedState::start_new();
-        let message: String = %s;
-        st.set_module_status_message(message, AgentStatusModule::KeyKeeper).await.unwrap();
-        let _ = st.get_module_status(AgentStatusModule::KeyKeeper).await;
+        let witnesses: Vec<String> = %s;
+        for message in witnesses {
+            let st = AgentStatusSharedState::start_new();
+            let n = message.len();
+            st.set_module_status_message(message, AgentStatusModule::KeyKeeper).await.unwrap();
+            let h = tokio::spawn(async move { let _ = st.get_module_status(AgentStatusModule::KeyKeeper).await; }).await;
+            assert!(h.is_ok(), "get_module_status panicked on a {}-byte status message with a multi-byte character across the cut", n);
+        }
     }
 }
-''' % WIT(1024)
+''' % WITS(1024)
 
 TEST_HEADERS = '''
 #[cfg(test)]
@@ -59,6 +73,23 @@ mod verif_replay_c13_headers {
         let url: hyper::Uri = format!("http://127.0.0.1:{}/x", port).parse().unwrap();
         let r = tokio::spawn(async move { super::get::<serde_json::Value, _>(&url, &std::collections::HashMap::new(), None, None, |_| {}).await.is_ok() }).await;
         assert!(r.is_ok(), "the response reader panicked on an odd-length UTF-16 body");
+    }
+    #[tokio::test(flavor = "multi_thread", worker_threads = 2)]
+    async fn c13_one_byte_utf16_body() {
+        use std::io::{Read, Write};
+        let l = std::net::TcpListener::bind("127.0.0.1:0").unwrap();
+        let port = l.local_addr().unwrap().port();
+        std::thread::spawn(move || {
+            if let Ok((mut s, _)) = l.accept() {
+                let mut b = [0u8; 4096];
+                let _ = s.read(&mut b);
+                let _ = s.write_all(b"HTTP/1.1 200 OK\\r\\ncontent-type: application/json; charset=utf-16\\r\\ncontent-length: 1\\r\\n\\r\\n{");
+                std::thread::sleep(std::time::Duration::from_millis(300));
+            }
+        });
+        let url: hyper::Uri = format!("http://127.0.0.1:{}/x", port).parse().unwrap();
+        let r = tokio::spawn(async move { super::get::<serde_json::Value, _>(&url, &std::collections::HashMap::new(), None, None, |_| {}).await.is_ok() }).await;
+        assert!(r.is_ok(), "the response reader panicked on a one-byte UTF-16 body frame");
     }
 }
 '''
@@ -113,6 +144,9 @@ def check(rep, tier, seed):
                 n_ = e.rargs[1]
                 producer = (e.callee.split("::")[-1], z3.simplify(n_.e).as_long() if isinstance(n_, Scalar) and z3.is_bv_value(z3.simplify(n_.e)) else None)
     rep.functions_encoded.append(rb)
+    eng_b = ctx.engine(loop_bound=1, max_paths=20000)
+    body_paths = eng_b.explore(rb)
+    results["utf16body"] = (body_paths, [r for r in body_paths if r.status == "panic" and "unwrap" not in r.note])
     clo = [p for p in ctx.idx.files if p.startswith(rb + "::{closure")]
     if producer and producer[1] and clo:
         kind, n_ = producer
@@ -137,7 +171,7 @@ def check(rep, tier, seed):
     inj = []
     if "status" in need:
         inj.append(("proxy_agent/src/shared_state/agent_status_wrapper.rs", TEST_STATUS))
-    if "headers" in need or "utf16" in need:
+    if "headers" in need or "utf16" in need or "utf16body" in need:
         inj.append(("proxy_agent/src/common/hyper_client.rs", TEST_HEADERS))
     if inj:
         res, out = replay_mod.run_rust_tests("azure-proxy-agent", inj, "verif_replay_c13", no_args=True)
@@ -145,8 +179,9 @@ def check(rep, tier, seed):
         native["status"] = res.get("c13_get_module_status_long_multibyte_message")
         native["headers"] = res.get("c13_canonical_headers_with_obs_text_value")
         native["utf16"] = res.get("c13_odd_length_utf16_body")
+        native["utf16body"] = "FAILED" if "FAILED" in (res.get("c13_odd_length_utf16_body"), res.get("c13_one_byte_utf16_body")) else res.get("c13_one_byte_utf16_body")
         files["status"] = save_replay("C13", "get_module_status.rs", "// append to proxy_agent/src/shared_state/agent_status_wrapper.rs\n" + TEST_STATUS)
-        files["headers"] = files["utf16"] = save_replay("C13", "hyper_client.rs", "// append to proxy_agent/src/common/hyper_client.rs\n" + TEST_HEADERS)
+        files["headers"] = files["utf16"] = files["utf16body"] = save_replay("C13", "hyper_client.rs", "// append to proxy_agent/src/common/hyper_client.rs\n" + TEST_HEADERS)
     if "summary" in need:
         # an enforced denial of a caller whose command line is long multi-byte text: error details exceed 4096 bytes
         T = []
@@ -165,7 +200,7 @@ def check(rep, tier, seed):
         native["summary"] = "FAILED" if "FAILED" in sts else ("ok" if all(s == "ok" for s in sts) else None)
         files["summary"] = save_replay("C13", "log_connection_summary_e2e.rs", "// e2e: caller command line = VERIF_CMDLINE_PREFIX + 4000 x U+00E9; run with prefix \"\" and \"a\" (one of them puts byte 4096 inside a character)\n" + full)
     names = {"event": "event_logger::write_event (message[..4096])", "summary": "log_connection_summary (error_details.truncate(4096))", "status": "get_module_status (&message[0..1024])",
-             "headers": "headers_to_canonicalized_string (value.to_str().unwrap())", "utf16": "read_response_body utf-16 decoder (chunk[1])"}
+             "headers": "headers_to_canonicalized_string (value.to_str().unwrap())", "utf16": "read_response_body utf-16 decoder (chunk[1])", "utf16body": "read_response_body frame loop (indexing / slicing of a body frame)"}
     for k, (ps, pan) in results.items():
         site_result(rep, "C13." + k, names[k], ps, pan, native.get(k), files.get(k))
     rep.bounds["sites"] = "five enumerated mechanisms of the property's anchors; loops bounded at 2 iterations"
